@@ -142,6 +142,19 @@ Definition op_embed_mat : opfun := fun zs qs =>
   | _, _ => Err (-1)
   end.
 
+(* convert_list_by_permutation_matrix (specification [conv_list], proved equal to the function REGENERATED from the source in
+   coq/gen/C07_Equiv2.v).  zs = n :: m :: old(m) ++ P(n*m, row-major, integer entries)  ->  entry per row, -1 = placeholder *)
+From QV.Model Require Import C07_PySym.
+Definition op_conv_list : opfun := fun zs _ =>
+  match zs with
+  | n :: m :: rest =>
+      let n' := Z.to_nat n in let m' := Z.to_nat m in
+      let old := firstn m' rest in let flat := skipn m' rest in
+      let P := fun r c : Z => nth (Z.to_nat r * m' + Z.to_nat c) flat 0%Z in
+      Ok (map (fun o => match o with Some v => qz v | None => qz (-1) end) (conv_list old P n' m'))
+  | _ => Err (-1)
+  end.
+
 Definition C07_ops : optable :=
   [ ("c07.eval"%string, op_eval);
     ("c07.eval_spec"%string, op_eval_spec);
@@ -152,4 +165,5 @@ Definition C07_ops : optable :=
     ("c07.mp_slots"%string, op_mp_slots);
     ("c07.tp_probs"%string, op_tp_probs);
     ("c07.embed_perm"%string, op_embed_perm);
-    ("c07.embed_mat"%string, op_embed_mat) ].
+    ("c07.embed_mat"%string, op_embed_mat);
+    ("c07.conv_list"%string, op_conv_list) ].
